@@ -31,7 +31,7 @@ ASSUMPTIONS = [
     "constructs of open compile-level findings (**, literal+literal string concatenation, try/except, forward helper calls, names first assigned in the main loop, helpers using ultrasonic/LCD state, unannotated non-int parameters) are off by construction; their witnesses run",
 ]
 
-OFF = {"pow", "str_lit_plus_lit", "try", "loop_first_assign", "unannotated_param", "multi_signature", "retype", "branch_first_assign",
+OFF = {"str_lit_plus_lit", "try", "loop_first_assign", "unannotated_param", "multi_signature", "retype", "branch_first_assign",
        "list_elem_assign", "helper_uses_late_helpers", "macro_effectful_arg", "for_bound_mutated"}
 PROFILE = gs.Profile(name="compile", devices=0.8, loop_decl=0.35, hostile_strings=True, off=OFF, max_stmts=10, helpers=3)
 
